@@ -1,7 +1,7 @@
 #!/usr/bin/env python3
 """Extract items verbatim from /repo, splice contracts in, write gen/griddle_verus.rs + gen/meta.json.
 
-Every change made to the repository text is one of the rules R1..R19 (DESIGN.md 4.2); each is
+Every change made to the repository text is one of the rules R1..R20 (DESIGN.md 4.2); each is
 rendered with a marker so that tools/identity.py can undo it mechanically:
    /*<+*/ inserted text /*+>*/            (contracts, ghost code, braces around closure bodies)
    /*<~ORIGINAL~*/replacement/*~>*/       (R1, R4, R5, R6, R7, R8, R11, R13, R14, R16, R17)
@@ -574,7 +574,7 @@ class Splicer:
                 foreach_as_loop.add(id(ls))
                 r14 = True
         for ls in fs.loops:
-            if ls.kw == "foreach":
+            if ls.kw in ("foreach", "all"):
                 continue
             same = lps if ls.kw == "any" else [l for l in lps if l["kw"] == ls.kw]
             if ls.ordinal > len(same):
@@ -677,6 +677,72 @@ class Splicer:
                 before = rs.text_of(toks, tail[0], tail[-1] + 1)
                 self.sub(tail[0], tail[-1] + 1, newt, "R18")
                 g.meta["r13_r14"].append({"fn": key, "rule": "R18", "before": before, "after": newt})
+        # R20: a tail expression `[A &&] RECV.all(|P| E)` (closure literal) ->
+        #      `[if !(A) { return false; }] let mut __it = RECV; while let Some(P) = __it.next() { if !(E) { return false; } } true`
+        #      libcore's provided Iterator::all is try_fold with a short-circuit on the first `false`, i.e. exactly this loop
+        #      (`&&` does not evaluate its right operand when the left one is false). The loop carries `@loop all 1`.
+        if "R20" in fs.rules:
+            s_all = [k for k in range(body_lo + 1, body_hi) if toks[k].kind not in ("ws", "comment", "doc")]
+            depth, start = 0, body_lo + 1
+            for k in s_all:
+                t_ = toks[k]
+                if t_.kind == "punct" and t_.text in rs.OPEN:
+                    depth += 1
+                elif t_.kind == "punct" and t_.text in rs.CLOSE:
+                    depth -= 1
+                    if depth == 0 and t_.text == "}":
+                        start = k + 1      # a statement block (`if .. { return false; }`) ends here
+                elif t_.text == ";" and depth == 0:
+                    start = k + 1
+            tail = [k for k in range(start, body_hi) if toks[k].kind not in ("ws", "comment", "doc")]
+            done = False
+            if tail and toks[tail[-1]].text == ")":
+                # last call at depth 0
+                depth, op = 0, None
+                for k in reversed(tail):
+                    t_ = toks[k].text
+                    if toks[k].kind == "punct" and t_ in rs.CLOSE:
+                        depth += 1
+                    elif toks[k].kind == "punct" and t_ in rs.OPEN:
+                        depth -= 1
+                        if depth == 0:
+                            op = k
+                            break
+                i_ = tail.index(op) if op in tail else -1
+                if i_ >= 2 and toks[op].text == "(" and toks[tail[i_ - 1]].text == "all" and toks[tail[i_ - 2]].text == ".":
+                    dot = tail[i_ - 2]
+                    cl_ = [c for c in cls if op < c["params_lo"] and c["body_hi"] <= tail[-1] + 1]
+                    cl_ = [c for c in cl_ if not any(o is not c and o["params_lo"] < c["params_lo"] and c["body_hi"] <= o["body_hi"] for o in cl_)]
+                    # split `A && RECV` at the last top-level `&&` before the receiver chain
+                    depth, amp = 0, None
+                    for k in tail[:i_ - 2]:
+                        t_ = toks[k]
+                        if t_.kind == "punct" and t_.text in rs.OPEN:
+                            depth += 1
+                        elif t_.kind == "punct" and t_.text in rs.CLOSE:
+                            depth -= 1
+                        elif t_.text == "&&" and depth == 0:
+                            amp = k
+                    if len(cl_) == 1:
+                        c_ = cl_[0]
+                        params = rs.text_of(toks, c_["params_lo"] + 1, c_["params_hi"] - 1).strip()
+                        body = rs.text_of(toks, c_["body_lo"], c_["body_hi"]).strip()
+                        recv_lo = amp + 1 if amp is not None else tail[0]
+                        recv = rs.text_of(toks, recv_lo, dot).strip()
+                        guard = ""
+                        if amp is not None:
+                            guard = "if !(%s) { return false; } " % rs.text_of(toks, tail[0], amp).strip()
+                        ls = [l_ for l_ in fs.loops if l_.kw == "all" and l_.ordinal == 1]
+                        inv = ("\n" + clause_lines(ls[0].clauses, indent="                    ") + "                ") if ls else " "
+                        newt = "%slet mut __it = %s; while let Some(%s) = __it.next()%s{ if !(%s) { return false; } } true" % (guard, recv, params, inv, body)
+                        before = rs.text_of(toks, tail[0], tail[-1] + 1)
+                        self.sub(tail[0], tail[-1] + 1, newt, "R20")
+                        g.meta["r13_r14"].append({"fn": key, "rule": "R20", "before": before, "after": re.sub(r"\s+", " ", newt)})
+                        done = True
+            if not done:
+                # the code no longer has that shape: nothing to rewrite, the function is verified as it stands (without the
+                # loop spec, which has nothing to attach to); if it still uses an adapter Verus rejects, it is demoted
+                g.meta["skipped_anchors"].append({"fn": key, "kind": "rule", "ordinal": 20, "expected": "tail expression `[A &&] X.all(|p| E)`", "found": None})
         # R16: `RECV.for_each([move] |PAT| { BODY });`  ->  `let mut __it = RECV; while let Some(PAT) = __it.next() { BODY }`
         #      (libcore's provided Iterator::for_each is fold((), ..), and fold is `while let Some(x) = self.next()`)
         # R17: `RECV.size_hint()` on a generic iterator -> `iter_size_hint(&RECV)` (trusted identity wrapper, result unconstrained)
